@@ -204,6 +204,46 @@ def r89t(F):
                "a file is put into the order at another point than when its stack entry comes back")
     return r
 
+
+def r42p(F):
+    r = RuleResult("R42p", "what the client holds is what the server thinks it holds",
+                   "diagnostics are published after every analysis; if the server keeps a record of what it last sent for a document "
+                   "(to skip a notification that would repeat it), then every place that sends a publishDiagnostics notification "
+                   "updates that record - a send that bypasses it (the clear on didClose) leaves the record ahead of the client and "
+                   "the next identical result is never sent", floor=1)
+    PARAMS = "PublishDiagnosticsParams"
+    sites = []
+    for n, fn in sorted(F.fns.items()):
+        if not n.startswith("ucglib::lsp::") or fn.derived or "::test" in n:
+            continue
+        for b, j, pl, rv, m in fn.assigns():
+            if rv["k"] == "agg" and str(rv.get("adt", "")).endswith(PARAMS):
+                sites.append((n, b))
+    need(sites, "no PublishDiagnosticsParams is built in src/lsp (publishing is written some other way)")
+
+    def memo_writes(fn):
+        out = []
+        for b, t in fn.calls():
+            c = callee(t)
+            if c.split("::")[-1] in ("insert", "remove", "entry", "clear") and "HashMap" in c and t["args"]:
+                pl = op_place(t["args"][0])
+                ty = fn.local_ty(pl["l"]) if pl is not None else ""
+                if "Url" in ty and "Diagnostic" in ty:
+                    out.append(b)
+        return out
+    keepers = {n for n, fn in F.fns.items() if n.startswith("ucglib::lsp::") and not fn.derived and memo_writes(fn)}
+    for k_, (n, b) in enumerate(sites):
+        fn = F.fns[n]
+        if not keepers:
+            r.inst("publish#%d:%s" % (k_, n.split("::")[-1]), fn.where(b), True, "no record of sent diagnostics is kept: every send stands for itself")
+            continue
+        ok = bool(memo_writes(fn))
+        r.inst("publish#%d:%s" % (k_, n.split("::")[-1]), fn.where(b), ok,
+               "the send updates the record of what the client holds" if ok else
+               "%s sends a publishDiagnostics notification without updating the record kept by %s: after this send the record no longer "
+               "says what the client holds, and a later analysis with the recorded result is not published" % (n.split("::")[-1], sorted(x.split("::")[-1] for x in keepers)))
+    return r
+
 from .c04 import r76x as _r76x
 
-RULES = [r13l, r40, r41, r42, r89, r89t, _r76x]
+RULES = [r13l, r40, r41, r42, r42p, r89, r89t, _r76x]
